@@ -71,6 +71,59 @@ def outer_oracle(ctx, env, ops_done, label):
         ctx.violation('OuterEnv does not expose the representation of the inner state / observation', {'env': label})
 
 
+def seeded_threading(ctx, shipped):
+    """'with the same seed': a stateful run after set_seed(seed) equals threading states through the functional interface of a second
+    copy of the environment after set_seed(seed) -- real numpy generators, seeds 0, 1 and random ones"""
+    r = ctx.rng
+    for name, data, desc in shipped[::3] if ctx.tier == 'quick' else shipped:
+        for seed in (0, 1, r.randrange(1 << 30)):
+            a = factory_env_from_data(copy.deepcopy(data))
+            b = factory_env_from_data(copy.deepcopy(data))
+            ops = envs.rand_ops(r, desc, r.randint(5, 25))
+            ops = [op for op in ops if not (op[0] == 'step' and op[1] not in desc['actions'])]
+            a.set_seed(seed)
+            b.set_seed(seed)
+            got = []
+            for kind, arg in ops:
+                try:
+                    if kind == 'reset':
+                        a.reset(); got.append(('unit',))
+                    elif kind == 'step':
+                        got.append(('step',) + tuple(a.step(envs.ACTS[arg])))
+                    elif kind == 'state':
+                        got.append(('state', wire.cstate(a.state)))
+                    else:
+                        got.append(('obs', wire.cstate(a.observation)))
+                except Exception as e:  # noqa: BLE001
+                    got.append(('err', type(e).__name__))
+            state, memo, exp = None, None, []
+            for kind, arg in ops:
+                try:
+                    if kind == 'reset':
+                        state, memo = b.functional_reset(), None
+                        exp.append(('unit',))
+                    elif state is None:
+                        exp.append(('err', 'RuntimeError'))
+                    elif kind == 'step':
+                        nxt, rwd, done = b.functional_step(state, envs.ACTS[arg])
+                        state, memo = nxt, None
+                        exp.append(('step', rwd, done))
+                    elif kind == 'state':
+                        exp.append(('state', wire.cstate(state)))
+                    else:
+                        if memo is None:
+                            memo = b.functional_observation(state)
+                        exp.append(('obs', wire.cstate(memo)))
+                except Exception as e:  # noqa: BLE001
+                    exp.append(('err', type(e).__name__))
+            ctx.count('seeded threading', name)
+            ctx.case(('seeded', name, seed, tuple(ops)), True, None)
+            if got != exp:
+                k = next(i for i, (x, y) in enumerate(zip(got, exp)) if x != y)
+                ctx.violation(f'{name}, seed {seed}: the stateful trajectory differs from threading states through the functional interface with the same seed at operation {k} ({ops[k]})',
+                              {'env': name, 'seed': seed, 'ops': ops, 'first_difference': k, 'stateful': str(got[k])[:300], 'functional': str(exp[k])[:300]})
+
+
 def run(ctx):
     r = ctx.rng
     ctx.rule = ('operation sequences (reset / step / read state / read observation; read patterns none, every step, repeated, mixed; mid-episode '
@@ -112,6 +165,7 @@ def run(ctx):
                  {'env': label, 'ops': [f'{k}:{a}' if a is not None else k for k, a in ops][:30], 'draws': len(tape), 'debug': debug})
         reqs.append(envs.env_request(desc, debug, ops, tape))
         metas.append((label, desc, ops, debug, outs, log))
+    seeded_threading(ctx, shipped)
     # the outer environment over the same inner machine: inner and outer operations interleaved on one object stack (model: Gym.v)
     from vt.suites.C20 import check_jobs
     check_jobs(ctx, jobs[::2] if ctx.tier == 'quick' else jobs, ['io', 'io', 'o', 'oi'], length)
